@@ -1,6 +1,611 @@
-//! C10 — not built yet.
-use vcommon::Args;
+//! C10 - names and object paths are validated exactly per the specification, identically on every
+//! construction route. (The GUID part lives in the zb crate: engines/zb/src/c10guid.rs.)
+//!
+//! Space: every string of length <= 6 (quick) / <= 7 (thorough) over the 10 symbols
+//! `a Z 0 _ - . : / é ' '`, plus boundary strings of 254..=257 bytes (and 255/256-byte strings made
+//! of two-byte characters), each presented to every validated type through every construction
+//! route. Oracle: route accepts <=> `refnames` accepts, and an accepted value holds the input.
 
-pub fn main(_args: &Args) -> i32 {
-    vcommon::machinery_failure("C10: check not built yet")
+use std::{
+    borrow::Cow,
+    collections::BTreeMap,
+    ffi::{c_char, c_void, CString},
+    sync::Arc,
+};
+
+use serde_json::json;
+use vcommon::{enumerate, hash64, Args, Report, Violation};
+use zbus_names::{
+    BusName, ErrorName, InterfaceName, MemberName, OwnedBusName, OwnedErrorName,
+    OwnedInterfaceName, OwnedMemberName, OwnedPropertyName, OwnedUniqueName, OwnedWellKnownName,
+    PropertyName, UniqueName, WellKnownName,
+};
+use zvariant::{
+    serialized::{Context, Data},
+    ObjectPath, OwnedObjectPath, OwnedValue, Str, Value, LE,
+};
+
+use crate::refnames::{self, Kind, KINDS};
+
+pub const ALPHABET: [&str; 10] = ["a", "Z", "0", "_", "-", ".", ":", "/", "é", " "];
+
+// ---------------------------------------------------------------------------------------------
+// libdbus through dlopen (audit only; never decides a verdict)
+// ---------------------------------------------------------------------------------------------
+
+type ValidateFn = unsafe extern "C" fn(*const c_char, *mut c_void) -> u32;
+
+pub struct LibDbus {
+    pub validate_path: ValidateFn,
+    pub validate_interface: ValidateFn,
+    pub validate_member: ValidateFn,
+    pub validate_error_name: ValidateFn,
+    pub validate_bus_name: ValidateFn,
+    pub signature_validate: ValidateFn,
+}
+unsafe impl Sync for LibDbus {}
+unsafe impl Send for LibDbus {}
+
+impl LibDbus {
+    pub fn open() -> Option<LibDbus> {
+        unsafe {
+            let name = CString::new("libdbus-1.so.3").unwrap();
+            let h = libc::dlopen(name.as_ptr(), libc::RTLD_NOW | libc::RTLD_LOCAL);
+            if h.is_null() {
+                return None;
+            }
+            let sym = |n: &str| -> Option<ValidateFn> {
+                let c = CString::new(n).unwrap();
+                let p = libc::dlsym(h, c.as_ptr());
+                if p.is_null() {
+                    None
+                } else {
+                    Some(std::mem::transmute::<*mut c_void, ValidateFn>(p))
+                }
+            };
+            Some(LibDbus {
+                validate_path: sym("dbus_validate_path")?,
+                validate_interface: sym("dbus_validate_interface")?,
+                validate_member: sym("dbus_validate_member")?,
+                validate_error_name: sym("dbus_validate_error_name")?,
+                validate_bus_name: sym("dbus_validate_bus_name")?,
+                signature_validate: sym("dbus_signature_validate")?,
+            })
+        }
+    }
+    pub fn call(&self, f: ValidateFn, s: &str) -> bool {
+        let c = CString::new(s).expect("no NUL in enumerated strings");
+        unsafe { f(c.as_ptr(), std::ptr::null_mut()) != 0 }
+    }
+}
+
+/// libdbus is knowingly laxer than the specification for unique names: after the `:` it neither
+/// requires a `.` (two elements) nor a non-empty first element (`:`, `:a`, `:.a` pass
+/// `dbus_validate_bus_name`). The specification text ("must contain at least one '.'", "all elements
+/// must contain at least one character") is what the reference follows; this class is masked in the
+/// audit and counted in the evidence.
+pub fn libdbus_lax_unique(s: &str) -> bool {
+    match s.strip_prefix(':') {
+        Some(rest) => !rest.contains('.') || rest.starts_with('.'),
+        None => false,
+    }
+}
+
+/// Compare every `refnames` acceptor that has a libdbus counterpart; returns the first
+/// disagreement. `masked` counts the strings excused by `libdbus_lax_unique`.
+fn audit_one(lib: &LibDbus, s: &str, masked: &mut u64) -> Option<String> {
+    let lib_bus = lib.call(lib.validate_bus_name, s);
+    let pairs: [(&str, bool, bool); 7] = [
+        ("object_path", refnames::object_path(s), lib.call(lib.validate_path, s)),
+        ("interface_name", refnames::interface_name(s), lib.call(lib.validate_interface, s)),
+        ("member_name", refnames::member_name(s), lib.call(lib.validate_member, s)),
+        ("error_name", refnames::error_name(s), lib.call(lib.validate_error_name, s)),
+        ("bus_name", refnames::bus_name(s), lib_bus),
+        ("unique_name_spec", refnames::unique_name_spec(s), s.starts_with(':') && lib_bus),
+        ("well_known_name", refnames::well_known_name(s), !s.starts_with(':') && lib_bus),
+    ];
+    let mut was_masked = false;
+    for (what, r, l) in pairs {
+        if r != l {
+            if !r && l && libdbus_lax_unique(s) && (what == "bus_name" || what == "unique_name_spec") {
+                was_masked = true;
+                continue;
+            }
+            return Some(format!("refnames::{what}({s:?}) = {r} but libdbus says {l}"));
+        }
+    }
+    if was_masked {
+        *masked += 1;
+    }
+    None
+}
+
+// ---------------------------------------------------------------------------------------------
+// routes
+// ---------------------------------------------------------------------------------------------
+
+#[derive(Clone, Debug, PartialEq)]
+pub enum Out {
+    Accepted,
+    Rejected,
+    /// accepted, but the constructed value does not hold the input string
+    Altered(String),
+    Panicked(String),
+}
+
+impl Out {
+    fn accepted(&self) -> bool {
+        matches!(self, Out::Accepted | Out::Altered(_))
+    }
+    fn show(&self) -> String {
+        match self {
+            Out::Accepted => "accepted".into(),
+            Out::Rejected => "rejected".into(),
+            Out::Altered(s) => format!("accepted but holds {s:?}"),
+            Out::Panicked(m) => format!("panicked: {m}"),
+        }
+    }
+}
+
+pub struct RouteObs {
+    pub route: &'static str,
+    /// coarse family used for finding identity: str | static | value | deserialize
+    pub group: &'static str,
+    pub out: Out,
+}
+
+fn obs<T, E>(
+    out: &mut Vec<RouteObs>,
+    route: &'static str,
+    group: &'static str,
+    s: &str,
+    f: impl FnOnce() -> Result<T, E>,
+    held: impl FnOnce(&T) -> String,
+) {
+    let o = match vcommon::catch(|| f().ok().map(|t| held(&t))) {
+        Ok(Some(h)) if h == s => Out::Accepted,
+        Ok(Some(h)) => Out::Altered(h),
+        Ok(None) => Out::Rejected,
+        Err(m) => Out::Panicked(m),
+    };
+    out.push(RouteObs { route, group, out: o });
+}
+
+/// Reference D-Bus encoding of a string / object path (`s`/`o`): u32 length, bytes, NUL.
+fn enc_dbus_string(s: &str) -> Vec<u8> {
+    let mut b = (s.len() as u32).to_le_bytes().to_vec();
+    b.extend_from_slice(s.as_bytes());
+    b.push(0);
+    b
+}
+/// Reference GVariant encoding of a string: bytes, NUL.
+fn enc_gv_string(s: &str) -> Vec<u8> {
+    let mut b = s.as_bytes().to_vec();
+    b.push(0);
+    b
+}
+/// Reference D-Bus encoding of a variant holding a value of one-letter string-like type `code`.
+fn enc_dbus_variant(code: u8, s: &str) -> Vec<u8> {
+    let mut b = vec![1, code, 0, 0];
+    b.extend_from_slice(&enc_dbus_string(s));
+    b
+}
+
+macro_rules! name_routes {
+    ($fname:ident, $T:ident, $Owned:ident) => {
+        fn $fname(s: &str, out: &mut Vec<RouteObs>) {
+            // SAFETY: the value built from `st` is dropped inside `obs`, before `s` goes away.
+            let st: &'static str = unsafe { std::mem::transmute::<&str, &'static str>(s) };
+            let h = |t: &$T<'_>| t.as_str().to_string();
+            let ho = |t: &$Owned| t.as_str().to_string();
+            obs(out, "try_from(&str)", "str", s, || $T::try_from(s), h);
+            obs(out, "try_from(String)", "str", s, || $T::try_from(s.to_string()), h);
+            obs(out, "try_from(Cow<str>)", "str", s, || $T::try_from(Cow::Borrowed(s)), h);
+            obs(out, "try_from(Arc<str>)", "str", s, || $T::try_from(Arc::<str>::from(s)), h);
+            obs(out, "try_from(Str)", "str", s, || $T::try_from(Str::from(s)), h);
+            obs(out, "from_static_str", "static", s, || $T::from_static_str(st), h);
+            obs(out, "try_from(Value)", "value", s, || $T::try_from(Value::from(s)), h);
+            obs(
+                out,
+                "try_from(OwnedValue)",
+                "value",
+                s,
+                || $T::try_from(OwnedValue::try_from(Value::from(s)).unwrap()),
+                h,
+            );
+            obs(out, "Owned::try_from(&str)", "str", s, || $Owned::try_from(s), ho);
+            obs(out, "Owned::try_from(String)", "str", s, || $Owned::try_from(s.to_string()), ho);
+            obs(
+                out,
+                "Owned::try_from(Value)",
+                "value",
+                s,
+                || $Owned::try_from(Value::from(s.to_string())),
+                ho,
+            );
+            obs(
+                out,
+                "Owned::try_from(OwnedValue)",
+                "value",
+                s,
+                || $Owned::try_from(OwnedValue::try_from(Value::from(s)).unwrap()),
+                ho,
+            );
+            let d = Data::new(enc_dbus_string(s), Context::new_dbus(LE, 0));
+            obs(out, "deserialize(dbus s)", "deserialize", s, || d.deserialize::<$T<'_>>().map(|r| r.0), h);
+            obs(
+                out,
+                "Owned::deserialize(dbus s)",
+                "deserialize",
+                s,
+                || d.deserialize::<$Owned>().map(|r| r.0),
+                ho,
+            );
+            #[cfg(feature = "gvariant")]
+            {
+                let g = Data::new(enc_gv_string(s), Context::new_gvariant(LE, 0));
+                obs(
+                    out,
+                    "deserialize(gvariant s)",
+                    "deserialize",
+                    s,
+                    || g.deserialize::<$T<'_>>().map(|r| r.0),
+                    h,
+                );
+            }
+        }
+    };
+}
+
+name_routes!(routes_bus, BusName, OwnedBusName);
+name_routes!(routes_unique, UniqueName, OwnedUniqueName);
+name_routes!(routes_well_known, WellKnownName, OwnedWellKnownName);
+name_routes!(routes_interface, InterfaceName, OwnedInterfaceName);
+name_routes!(routes_member, MemberName, OwnedMemberName);
+name_routes!(routes_error, ErrorName, OwnedErrorName);
+name_routes!(routes_property, PropertyName, OwnedPropertyName);
+
+fn routes_path(s: &str, out: &mut Vec<RouteObs>) {
+    // SAFETY: as above.
+    let st: &'static str = unsafe { std::mem::transmute::<&str, &'static str>(s) };
+    let h = |t: &ObjectPath<'_>| t.as_str().to_string();
+    let ho = |t: &OwnedObjectPath| t.as_str().to_string();
+    obs(out, "try_from(&str)", "str", s, || ObjectPath::try_from(s), h);
+    obs(out, "try_from(String)", "str", s, || ObjectPath::try_from(s.to_string()), h);
+    obs(out, "try_from(Cow<str>)", "str", s, || ObjectPath::try_from(Cow::Borrowed(s)), h);
+    obs(out, "try_from(&[u8])", "str", s, || ObjectPath::try_from(s.as_bytes()), h);
+    obs(out, "from_static_str", "static", s, || ObjectPath::from_static_str(st), h);
+    obs(out, "Owned::try_from(&str)", "str", s, || OwnedObjectPath::try_from(s), ho);
+    obs(out, "Owned::try_from(String)", "str", s, || OwnedObjectPath::try_from(s.to_string()), ho);
+    let d = Data::new(enc_dbus_string(s), Context::new_dbus(LE, 0));
+    obs(out, "deserialize(dbus o)", "deserialize", s, || d.deserialize::<ObjectPath<'_>>().map(|r| r.0), h);
+    obs(
+        out,
+        "Owned::deserialize(dbus o)",
+        "deserialize",
+        s,
+        || d.deserialize::<OwnedObjectPath>().map(|r| r.0),
+        ho,
+    );
+    let v = Data::new(enc_dbus_variant(b'o', s), Context::new_dbus(LE, 0));
+    obs(
+        out,
+        "deserialize(dbus variant o)",
+        "deserialize",
+        s,
+        || v.deserialize::<Value<'_>>().map(|r| r.0),
+        |val| match val {
+            Value::ObjectPath(p) => p.as_str().to_string(),
+            other => format!("<not an object path: {other:?}>"),
+        },
+    );
+    #[cfg(feature = "gvariant")]
+    {
+        let g = Data::new(enc_gv_string(s), Context::new_gvariant(LE, 0));
+        obs(
+            out,
+            "deserialize(gvariant o)",
+            "deserialize",
+            s,
+            || g.deserialize::<ObjectPath<'_>>().map(|r| r.0),
+            h,
+        );
+    }
+}
+
+pub fn observe(kind: Kind, s: &str, out: &mut Vec<RouteObs>) {
+    out.clear();
+    match kind {
+        Kind::BusName => routes_bus(s, out),
+        Kind::UniqueName => routes_unique(s, out),
+        Kind::WellKnownName => routes_well_known(s, out),
+        Kind::InterfaceName => routes_interface(s, out),
+        Kind::MemberName => routes_member(s, out),
+        Kind::ErrorName => routes_error(s, out),
+        Kind::PropertyName => routes_property(s, out),
+        Kind::ObjectPath => routes_path(s, out),
+    }
+}
+
+// ---------------------------------------------------------------------------------------------
+// case evaluation
+// ---------------------------------------------------------------------------------------------
+
+#[derive(Default)]
+struct Local {
+    evals: u64,
+    outcomes: BTreeMap<String, u64>,
+    nontrivial: Vec<u64>,
+    /// identity -> (count, first violation)
+    viol: BTreeMap<(String, String, String, String), (u64, Option<Violation>)>,
+    samples: Vec<serde_json::Value>,
+}
+
+fn eval_case(kind: Kind, s: &str, buf: &mut Vec<RouteObs>, loc: &mut Local, origin: &str) {
+    let expect = kind.accepts(s);
+    observe(kind, s, buf);
+    loc.evals += 1;
+    let mut any_accept = false;
+    for o in buf.iter() {
+        any_accept |= o.out.accepted();
+        let (bad, clause, dir) = match &o.out {
+            Out::Panicked(_) => (true, "no-panic", "panic"),
+            Out::Altered(_) => (true, "accepted-value-holds-input", "altered"),
+            Out::Accepted if !expect => (true, "accept-iff-grammar", "accepts-invalid"),
+            Out::Rejected if expect => (true, "accept-iff-grammar", "rejects-valid"),
+            _ => (false, "", ""),
+        };
+        if bad {
+            let id = (
+                clause.to_string(),
+                kind.name().to_string(),
+                o.route.to_string(),
+                dir.to_string(),
+            );
+            let e = loc.viol.entry(id).or_insert((0, None));
+            e.0 += 1;
+            if e.1.is_none() {
+                e.1 = Some(
+                    Violation::new(
+                        clause,
+                        format!(
+                            "{}: {} on {:?} -> {}; the reference grammar {} it",
+                            kind.name(),
+                            o.route,
+                            s,
+                            o.out.show(),
+                            if expect { "accepts" } else { "rejects" }
+                        ),
+                        json!({"kind": kind.name(), "string": s}),
+                    )
+                    .feat("type", kind.name())
+                    .feat("route", o.route)
+                    .feat("route_group", o.group)
+                    .feat("direction", dir),
+                );
+            }
+        }
+    }
+    let class = format!(
+        "{}:{}",
+        if kind == Kind::ObjectPath { "path" } else { "name" },
+        match (expect, any_accept) {
+            (true, true) => "valid-accepted",
+            (true, false) => "valid-rejected",
+            (false, true) => "invalid-accepted-by-some-route",
+            (false, false) => "invalid-rejected",
+        }
+    );
+    *loc.outcomes.entry(class).or_insert(0) += 1;
+    // non-trivial: the reference accepts the string for a kind with a real grammar, or it is a
+    // boundary-length string (PropertyName accepts nearly everything, so only its boundary cases count).
+    if (expect && kind != Kind::PropertyName) || origin == "boundary" {
+        loc.nontrivial.push(hash64(&(kind.name(), s)));
+        if loc.samples.len() < 2 && s.len() >= 3 && s.len() < 40 && kind != Kind::PropertyName {
+            loc.samples.push(json!({"kind": kind.name(), "string": s, "reference": expect,
+                "routes": buf.iter().map(|o| json!([o.route, o.out.show()])).collect::<Vec<_>>() }));
+        }
+    }
+}
+
+fn flush(report: &Report, loc: Local) {
+    report.eval(loc.evals);
+    for (k, n) in &loc.outcomes {
+        report.outcome_n(k, *n);
+    }
+    report.nontrivial_many(loc.nontrivial);
+    for (_, (n, v)) in loc.viol {
+        report.add("violating_route_observations", n);
+        if let Some(v) = v {
+            report.violation(v);
+        }
+    }
+    for s in loc.samples {
+        if report.n_samples() < 10 {
+            report.sample(s);
+        }
+    }
+}
+
+/// Boundary strings: for every shape, exact byte lengths 254..=257 (and a long one).
+pub fn boundary_strings() -> Vec<String> {
+    let mut out = vec![];
+    let fill = |prefix: &str, c: &str, len: usize| -> Option<String> {
+        if len < prefix.len() {
+            return None;
+        }
+        let rest = len - prefix.len();
+        if rest % c.len() != 0 {
+            return None;
+        }
+        Some(format!("{prefix}{}", c.repeat(rest / c.len())))
+    };
+    for len in [254usize, 255, 256, 257, 1000] {
+        // member / property shaped
+        out.extend(fill("", "a", len));
+        out.extend(fill("_", "0", len));
+        // interface / error / well-known / bus shaped
+        out.extend(fill("a.", "a", len));
+        out.extend(fill("a.b-", "a", len));
+        out.extend(fill("a", ".a", len));
+        out.extend(fill("aa", ".a", len));
+        // unique shaped
+        out.extend(fill(":1.", "0", len));
+        out.extend(fill(":a", ".0", len));
+        out.extend(fill(":aa", ".0", len));
+        // the bus driver's name, padded (must not be accepted as unique by prefix)
+        out.extend(fill("org.freedesktop.DBus", "a", len));
+        // object-path shaped
+        out.extend(fill("/", "a", len));
+        out.extend(fill("/a", "/a", len));
+        out.extend(fill("/aa", "/a", len));
+        // two-byte characters: 255 bytes = 127 chars + 1, 256 bytes = 128 chars
+        out.extend(fill("", "é", len));
+        out.extend(fill("a", "é", len));
+        // right length, wrong shape
+        out.extend(fill("a.", "a", len - 1).map(|s| s + "."));
+        out.extend(fill("/", "a", len - 1).map(|s| s + "/"));
+    }
+    out.push("org.freedesktop.DBus".into());
+    out.push("org.freedesktop.DBus.".into());
+    out.push("org.freedesktop.DBu".into());
+    out.push(":org.freedesktop.DBus".into());
+    out.sort();
+    out.dedup();
+    out
+}
+
+pub fn main(args: &Args) -> i32 {
+    if let Some(p) = &args.replay {
+        return replay(p);
+    }
+    let report = Report::new("C10", args.tier, args.seed, "exploration");
+    let max_len = args.tier.pick(6usize, 7usize);
+    let k = ALPHABET.len();
+    let total = enumerate::count_strings(k, max_len);
+    let lib = LibDbus::open();
+    if lib.is_none() && args.tier == vcommon::Tier::Thorough {
+        vcommon::machinery_failure("C10: libdbus-1.so.3 cannot be loaded for the refnames audit");
+    }
+    let audit_fail: std::sync::Mutex<Option<String>> = std::sync::Mutex::new(None);
+    let audited = std::sync::atomic::AtomicU64::new(0);
+    let masked = std::sync::atomic::AtomicU64::new(0);
+
+    const BLOCK: usize = 2048;
+    let n_blocks = total.div_ceil(BLOCK);
+    let run_block = |b: usize| {
+        let mut loc = Local::default();
+        let mut idx = vec![];
+        let mut buf = vec![];
+        let mut s = String::new();
+        let mut n_aud = 0u64;
+        let mut n_masked = 0u64;
+        for i in b * BLOCK..((b + 1) * BLOCK).min(total) {
+            enumerate::nth_string(k, i, &mut idx);
+            s.clear();
+            for j in &idx {
+                s.push_str(ALPHABET[*j]);
+            }
+            if let Some(lib) = &lib {
+                n_aud += 1;
+                if let Some(msg) = audit_one(lib, &s, &mut n_masked) {
+                    audit_fail.lock().unwrap().get_or_insert(msg);
+                }
+            }
+            for kind in KINDS {
+                eval_case(kind, &s, &mut buf, &mut loc, "enum");
+            }
+        }
+        audited.fetch_add(n_aud, std::sync::atomic::Ordering::Relaxed);
+        masked.fetch_add(n_masked, std::sync::atomic::Ordering::Relaxed);
+        flush(&report, loc);
+    };
+    // the first block (all strings of length <= 3) runs first and alone, so that the witness kept
+    // for each violation identity is a shortest one
+    run_block(0);
+    vcommon::par_for(n_blocks.saturating_sub(1), 1, |b| run_block(b + 1));
+
+    let bs = boundary_strings();
+    {
+        let mut loc = Local::default();
+        let mut buf = vec![];
+        for s in &bs {
+            if let Some(lib) = &lib {
+                audited.fetch_add(1, std::sync::atomic::Ordering::Relaxed);
+                let mut m = 0;
+                if let Some(msg) = audit_one(lib, s, &mut m) {
+                    audit_fail.lock().unwrap().get_or_insert(msg);
+                }
+                masked.fetch_add(m, std::sync::atomic::Ordering::Relaxed);
+            }
+            for kind in KINDS {
+                eval_case(kind, s, &mut buf, &mut loc, "boundary");
+            }
+        }
+        flush(&report, loc);
+    }
+
+    if let Some(msg) = audit_fail.lock().unwrap().clone() {
+        vcommon::machinery_failure(&format!("C10 oracle audit: {msg}"));
+    }
+    report.set("strings_enumerated", json!(total));
+    report.set("boundary_strings", json!(bs.len()));
+    report.set("max_len", json!(max_len));
+    report.set(
+        "refnames_audited_against_libdbus",
+        json!(audited.load(std::sync::atomic::Ordering::Relaxed)),
+    );
+    report.set(
+        "audit_masked_libdbus_lax_unique_names",
+        json!({"strings": masked.load(std::sync::atomic::Ordering::Relaxed),
+               "mask": "libdbus accepts ':'-names without a '.' or with an empty first element; the specification (and the reference) do not"}),
+    );
+    report.set("types", json!(KINDS.iter().map(|k| k.name()).collect::<Vec<_>>()));
+    report.assume("refnames is written from the D-Bus specification; it is audited against libdbus dbus_validate_{path,interface,member,error_name,bus_name} on every enumerated string (disagreement = machinery failure)");
+    report.assume("PropertyName reference = 1..=255 bytes (the specification gives property names no grammar; the bound is zbus's documented one)");
+    report.assume("UniqueName reference includes the literal org.freedesktop.DBus, as zbus documents");
+    report.assume("the GUID part of the property is checked by the zb crate (c10guid)");
+    report.assume("reference D-Bus/GVariant string encodings used for the Deserialize routes are the trivial length+bytes+NUL / bytes+NUL forms");
+    if lib.is_none() {
+        report.note("libdbus not loadable: refnames audit skipped in this quick run");
+    }
+    report.finish(
+        "every string of length <= max_len over {a,Z,0,_,-,.,:,/,é,space} plus 254..257/1000-byte boundary strings, x 8 validated types x every construction route; non-trivial = (type,string) pairs the reference accepts (PropertyName excluded: it accepts nearly everything) plus all boundary pairs",
+        true,
+    )
+}
+
+fn replay(path: &str) -> i32 {
+    let v = vcommon::load_replay(path);
+    let kind = v["replay"]["kind"].as_str().and_then(Kind::from_name);
+    let s = v["replay"]["string"].as_str();
+    let (Some(kind), Some(s)) = (kind, s) else {
+        vcommon::machinery_failure("C10 replay: artefact needs replay.kind and replay.string");
+    };
+    let expect = kind.accepts(s);
+    println!("C10 replay: type={} string={:?} ({} bytes)", kind.name(), s, s.len());
+    println!("  reference grammar: {}", if expect { "accepts" } else { "rejects" });
+    if let Some(lib) = LibDbus::open() {
+        match audit_one(&lib, s, &mut 0) {
+            None => println!("  libdbus agrees with the reference on this string"),
+            Some(m) => println!("  ORACLE AUDIT DISAGREEMENT: {m}"),
+        }
+    }
+    let mut buf = vec![];
+    observe(kind, s, &mut buf);
+    let mut bad = 0;
+    for o in &buf {
+        let ok = matches!((&o.out, expect), (Out::Accepted, true) | (Out::Rejected, false));
+        if !ok {
+            bad += 1;
+        }
+        println!("  {:32} -> {}{}", o.route, o.out.show(), if ok { "" } else { "   <-- differs from the reference" });
+    }
+    if bad > 0 {
+        println!("C10 replay: reproduced ({bad} route(s) differ)");
+        1
+    } else {
+        println!("C10 replay: not reproduced");
+        0
+    }
 }
